@@ -549,7 +549,7 @@ Local Arguments scc_main : simpl never.
 Lemma discard_if_stub_extends : forall d i, extends d (discard_if_stub d i).
 Proof.
   intros d i. unfold discard_if_stub.
-  destruct (n_exp (get d i)); [apply extends_refl|apply upd_flag_extends; constructor].
+  destruct (n_exp (get d i) && negb (n_skip (get d i))); [apply extends_refl|apply upd_flag_extends; constructor].
 Qed.
 
 (* one iteration of the first loop of attach_scc_subdiagram *)
@@ -704,7 +704,7 @@ Lemma as_close_cases : forall (P : sd -> Prop) cm d2 a mins tape1,
 Proof.
   intros P cm d2 a mins tape1 Hf HP. unfold as_close.
   assert (H3 : P (upd_node (discard_if_stub d2 a) a (fun y => set_exp y true))).
-  { apply Hf; [constructor|]. unfold discard_if_stub. destruct (n_exp (get d2 a)); [exact HP|].
+  { apply Hf; [constructor|]. unfold discard_if_stub. destruct (n_exp (get d2 a) && negb (n_skip (get d2 a))); [exact HP|].
     apply Hf; [constructor|exact HP]. }
   destruct cm; [destruct tape1 as [|[[|]|] t]|]; simpl; (split; [|auto; intros m []]); try exact H3.
   apply (set_empty_seeds_flag P); [|exact H3]. intros d0 f Hfs H0. apply Hf; assumption.
@@ -1096,7 +1096,7 @@ Qed.
 
 Lemma WI_discard_if_stub : forall N d i, WI N d -> WI N (discard_if_stub d i).
 Proof.
-  intros N d i H. unfold discard_if_stub. destruct (n_exp (get d i)); [exact H|].
+  intros N d i H. unfold discard_if_stub. destruct (n_exp (get d i) && negb (n_skip (get d i))); [exact H|].
   apply WI_upd_flag; [constructor|exact H].
 Qed.
 
